@@ -173,7 +173,7 @@ def run(ctx):
     # the JSON-schema Literal <-> pattern siblings (shared with C06.pattern)
     from .c06 import _pattern
 
-    _pattern(ctx, index)
+    ctx.section(_pattern, ctx, index)
 
 
 def _discharge(index, f, n, slot, art, facts, seen_pairs):
